@@ -108,16 +108,21 @@ fn run_search(v: &Val) -> Val {
     let path: Option<Vec<u8>> = v.fld(14).opt().map(|x| x.bytes());
     let pterm: Option<u8> = if v.fld(16).b() { Some(0) } else { None };
 
-    let opts = crate::rgcfg::RgOpts { fixed: true, text: v.fld(0).us() == 0, ..Default::default() };
-    let matcher = match crate::rgcfg::matcher(&needles, &opts) {
+    // strategy 0 roll buffer, 1 slice; 2 / 3: multi-line search (pattern `\n`) of the slice / of a reader
+    let ml = strategy >= 2;
+    let use_reader = strategy == 0 || strategy == 3;
+    let opts = crate::rgcfg::RgOpts { fixed: !ml, multiline: ml, text: v.fld(0).us() == 0, ..Default::default() };
+    let pats = if ml { vec![String::from("\\n")] } else { needles.clone() };
+    let matcher = match crate::rgcfg::matcher(&pats, &opts) {
         Ok(m) => m,
         Err(_) => return Val::L(vec![Val::N(99)]),
     };
     let build = || {
         let mut sb = SearcherBuilder::new();
         sb.line_number(false)
-            .invert_match(invert)
-            .passthru(passthru)
+            .multi_line(ml)
+            .invert_match(invert && !ml)
+            .passthru(passthru && !ml)
             .binary_detection(mode.clone())
             .bom_sniffing(false)
             .heap_limit(alloc.map(|l| default_cap + l))
@@ -128,7 +133,7 @@ fn run_search(v: &Val) -> Val {
 
     // 1. recording sink
     let mut rec = RecSink { events: vec![], calls: 0, stop, bin_reply };
-    let res = if strategy == 0 {
+    let res = if use_reader {
         build().search_reader(&matcher, rdr(), &mut rec)
     } else {
         build().search_slice(&matcher, &stream, &mut rec)
@@ -144,11 +149,11 @@ fn run_search(v: &Val) -> Val {
         let _ = match &pstr {
             Some(p) => {
                 let sink = printer.sink_with_path(&matcher, p);
-                if strategy == 0 { build().search_reader(&matcher, rdr(), sink) } else { build().search_slice(&matcher, &stream, sink) }
+                if use_reader { build().search_reader(&matcher, rdr(), sink) } else { build().search_slice(&matcher, &stream, sink) }
             }
             None => {
                 let sink = printer.sink(&matcher);
-                if strategy == 0 { build().search_reader(&matcher, rdr(), sink) } else { build().search_slice(&matcher, &stream, sink) }
+                if use_reader { build().search_reader(&matcher, rdr(), sink) } else { build().search_slice(&matcher, &stream, sink) }
             }
         };
     }
@@ -165,12 +170,12 @@ fn run_search(v: &Val) -> Val {
             match &pstr {
                 Some(p) => {
                     let sink = printer.sink_with_path(&matcher, p);
-                    let _ = if strategy == 0 { build().search_reader(&matcher, rdr(), sink) } else { build().search_slice(&matcher, &stream, sink) };
+                    let _ = if use_reader { build().search_reader(&matcher, rdr(), sink) } else { build().search_slice(&matcher, &stream, sink) };
                 }
                 None => {
                     if matches!(kind, SummaryKind::Count) {
                         let sink = printer.sink(&matcher);
-                        let _ = if strategy == 0 { build().search_reader(&matcher, rdr(), sink) } else { build().search_slice(&matcher, &stream, sink) };
+                        let _ = if use_reader { build().search_reader(&matcher, rdr(), sink) } else { build().search_slice(&matcher, &stream, sink) };
                     }
                 }
             }
